@@ -186,6 +186,16 @@ func (m *Machine) rtypeMethod(t types.Type, name string, args []value) value {
 		return conc(64, uint64(t.Underlying().(*types.Array).Len()))
 	case "NumMethod":
 		return conc(64, uint64(m.prog.MethodSets.MethodSet(t).Len()))
+	case "Bits":
+		if b, ok := t.Underlying().(*types.Basic); ok && b.Info()&(types.IsInteger|types.IsFloat|types.IsComplex) != 0 {
+			if b.Info()&types.IsComplex != 0 {
+				return conc(64, uint64(2*widthOf(types.Typ[types.Float64])))
+			}
+			return conc(64, uint64(widthOf(b)))
+		}
+		m.goPanicStr("reflect: Bits of non-arithmetic Type " + t.String())
+	case "Size":
+		return conc(64, uint64(sizeOf(t)))
 	}
 	m.stop("inconclusive", "reflect.Type.%s not modelled", name)
 	return nil
@@ -296,11 +306,18 @@ func init() {
 		return nil
 	})
 	V("NumField", func(m *Machine, r *rval, a []value) value {
-		return conc(64, uint64(r.t.Underlying().(*types.Struct).NumFields()))
+		st, ok := r.t.Underlying().(*types.Struct)
+		if !ok {
+			m.goPanicStr("reflect: call of reflect.Value.NumField on " + kindName(r.t) + " Value")
+		}
+		return conc(64, uint64(st.NumFields()))
 	})
 	V("Field", func(m *Machine, r *rval, a []value) value {
 		i := m.concLen(a[0].(Scalar), "Value.Field")
-		st := r.t.Underlying().(*types.Struct)
+		st, ok := r.t.Underlying().(*types.Struct)
+		if !ok {
+			m.goPanicStr("reflect: call of reflect.Value.Field on " + kindName(r.t) + " Value")
+		}
 		return m.mkValue(&rval{t: st.Field(i).Type(), loc: pathPlus(r.loc, i), addr: r.addr})
 	})
 	V("FieldByIndex", func(m *Machine, r *rval, a []value) value {
@@ -522,4 +539,20 @@ func (m *Machine) nameIs(s *String, name string) bool {
 		return false
 	}
 	return m.branch(eq)
+}
+
+func kindName(t types.Type) string {
+	switch t.Underlying().(type) {
+	case *types.Pointer:
+		return "ptr"
+	case *types.Struct:
+		return "struct"
+	case *types.Slice:
+		return "slice"
+	case *types.Map:
+		return "map"
+	case *types.Interface:
+		return "interface"
+	}
+	return t.Underlying().String()
 }
